@@ -121,6 +121,15 @@ theorem canonical_follows_td (R : Router) (ops : List Op) (g : Genesis)
   obtain ⟨_, _, _, hCI⟩ := (run_inv ops (empty_inv R)).gen g hg
   exact ⟨hCI.head, hCI.above, hCI.below, hCI.root.1, hCI.root.2, hCI.link⟩
 
+/-- Once a trust root is installed (in fact in every reachable state) no header can make `SyncBlockHeader` panic — the
+modulus `len(validators)` of the in-turn test is never zero — or fail internally: the walks over `EpochParentHash` links
+and the recent-signer look-back always find their records, the unbounded loops (`for {}`) end within the model's fuel,
+`addHeader` always finds the canonical head. `internalOut` = panic or one of the error classes fuel / getHeader / parse /
+nocanon / nogenesis / block0. -/
+theorem sync_never_panics (R : Router) (ops : List Op) (h : Hdr) :
+    internalOut (syncHeader R (run R St.empty ops) h).2 = false :=
+  syncHeader_total (run_inv ops (empty_inv R)) h
+
 /-- The trust root is installed at most once: a second `SyncGenesisHeader` changes nothing. -/
 theorem genesis_once (st : St) (g0 : Genesis) (g : Hdr) (pvs : List HV) (hg : st.genesis = some g0) :
     (syncGenesis st g pvs).1 = st := by
